@@ -81,12 +81,17 @@ func TimeFromTime64(t Time64, t0 time.Time) time.Time {
 
 	sec := epoch + (tref-epoch)/secondsPerEra*secondsPerEra + int64(t.Seconds)
 
-	// If the timestamp would be too far in the past relative to
-	// the reference time, assume it's from the next era; if it would
-	// be too far in the future, assume it's from the previous era
-	if sec < tref-secondsPerEra/2 {
+	// Choose the era that puts the result into [t0 - 2^31 s, t0 + 2^31 s):
+	// if the timestamp would be too far in the past relative to the
+	// reference time, assume it's from the next era; if it would be too far
+	// in the future, assume it's from the previous era. At exactly half an
+	// era of whole seconds the sub-second parts decide.
+	fref := uint32(int64(t0.Nanosecond()) << 32 / nanosecondsPerSecond)
+	if sec < tref-secondsPerEra/2 ||
+		sec == tref-secondsPerEra/2 && t.Fraction < fref {
 		sec += secondsPerEra
-	} else if sec >= tref+secondsPerEra/2 {
+	} else if sec > tref+secondsPerEra/2 ||
+		sec == tref+secondsPerEra/2 && t.Fraction >= fref {
 		sec -= secondsPerEra
 	}
 
